@@ -121,8 +121,16 @@ class _Unknown(_Child):
 _KINDS = (_File, _Dir, _Unknown)
 
 
+def _pick(seq, i):
+    """seq[i] by comparison (indexing a tuple with a symbolic int hands back a proxy that does not discharge)"""
+    for j in range(len(seq)):
+        if i == j:
+            return seq[j]
+    raise hlib.HarnessError("index out of range")
+
+
 def _mkchild(kind, tag, ro=False):
-    return _KINDS[kind](tag, ro)
+    return _pick(_KINDS, kind)(tag, ro)
 
 
 def _cp(md):
@@ -169,7 +177,7 @@ class _Codec(object):
 
 def _ro_of(child, name=None):
     """what create_readonly_node / the nodemaker give for a child's read cap: a read-only token of the same kind+tag"""
-    return _KINDS[child.kind](child.tag, True)
+    return _pick(_KINDS, child.kind)(child.tag, True)
 
 
 class _RONode(object):
@@ -289,17 +297,85 @@ def h_update_metadata(now: int, has_old: bool, has_ctime: bool, ctime: int, has_
 
 
 # ---------------------------------------------------------------------------------------------------
+# selectors (small symbolic ints; the allowed values per case come from the bounds)
+# ---------------------------------------------------------------------------------------------------
+
+def _ok(key, v):
+    """v is allowed by the bounds list B[key] (absent = everything)"""
+    lst = B.get(key)
+    if lst is None:
+        return True
+    for x in lst:
+        if v == x:
+            return True
+    return False
+
+
+A_SEL = 5      # existing entry: 0 absent, 1 file, 2 directory, 3 unknown, 4 read-only file
+N_SEL = 5      # new child: 0 file, 1 directory, 2 unknown, 3 read-only file, 4 read-only directory
+SHAPES = 4     # old metadata: 0 tahoe{linkcrtime,linkmotime}+ctime, 1 ctime only, 2 tahoe{linkmotime}+ctime, 3 neither
+NM_SEL = 6     # caller's metadata: 0 None, 1 {user2}, 2 +forged tahoe, 3 +no-write False, 4 +no-write True, 5 +no-write True +forged tahoe
+
+
+def _a_kind_ro(a):
+    if a == 1:
+        return (0, False)
+    if a == 2:
+        return (1, False)
+    if a == 3:
+        return (2, False)
+    return (0, True)
+
+
+def _n_kind_ro(n):
+    if n == 0:
+        return (0, False)
+    if n == 1:
+        return (1, False)
+    if n == 2:
+        return (2, False)
+    if n == 3:
+        return (0, True)
+    return (1, True)
+
+
+def _shape_md(shape, ctime, lcr, lmo, user):
+    if shape == 0:
+        return _old_md(True, ctime, True, True, lcr, lmo, user)
+    if shape == 1:
+        return _old_md(True, ctime, False, False, lcr, lmo, user)
+    if shape == 2:
+        return _old_md(True, ctime, True, False, lcr, lmo, user)
+    return _old_md(False, ctime, False, False, lcr, lmo, user)
+
+
+def _sel_new_md(nm, nt, u_new):
+    if nm == 0:
+        return None
+    if nm == 1:
+        return _new_md(True, False, nt, 0, u_new)
+    if nm == 2:
+        return _new_md(True, True, nt, 0, u_new)
+    if nm == 3:
+        return _new_md(True, False, nt, 1, u_new)
+    if nm == 4:
+        return _new_md(True, False, nt, 2, u_new)
+    return _new_md(True, True, nt, 2, u_new)
+
+
+# ---------------------------------------------------------------------------------------------------
 # modifiers on a fake node
 # ---------------------------------------------------------------------------------------------------
 
-def _prestate(a_exists, a_kind, a_ro, md):
-    """packed pre-state + the model map {name: (kind, tag, ro, md)}"""
+def _prestate(a, md):
+    """packed pre-state + the model map {name: (kind, tag, ro, md)}: optional entry under T, bystander under BY"""
     entries = []
     model = {}
     by_md = {"tahoe": {"linkcrtime": 11, "linkmotime": 12}, "user": 13}
-    if a_exists:
-        entries.append((T, _mkchild(a_kind, b"old", a_ro), _cp(md)))
-        model[T] = (a_kind, b"old", a_ro, _cp(md))
+    if a != 0:
+        (k, ro) = _a_kind_ro(a)
+        entries.append((T, _mkchild(k, b"old", ro), _cp(md)))
+        model[T] = (k, b"old", ro, _cp(md))
     entries.append((BY, _mkchild(0, b"by"), _cp(by_md)))
     model[BY] = (0, b"by", False, _cp(by_md))
     entries.sort(key=lambda e: e[0])
@@ -338,35 +414,42 @@ def _model_add(model, name, kind, tag, ro, newmd, ow, now, diminish=True):
     return None
 
 
-def h_adder(ow: int, raw: int, a_exists: bool, a_kind: int, a_ro: bool, has_ctime: bool, ctime: int, has_tahoe: bool,
-            has_lcr: bool, lcr: int, lmo: int, u_old: int, n_kind: int, n_ro: bool, has_new: bool, new_tahoe: bool, nt: int,
-            no_write: int, u_new: int, now: int, use_set_node: bool) -> bool:
+def _snap(packed):
+    return [(n, c, _cp(md)) for (n, c, md) in packed.entries]
+
+
+def _entries_eq(packed, before):
+    return [(n, c, md) for (n, c, md) in packed.entries] == before
+
+
+def h_adder(ow: int, raw: int, a: int, shape: int, n: int, nm: int, use_set_node: bool,
+            ctime: int, lcr: int, lmo: int, u_old: int, nt: int, u_new: int, now: int) -> bool:
     """
-    pre: 0 <= ow <= 2 and 0 <= raw < len(RAW) and 0 <= a_kind <= 2 and 0 <= n_kind <= 2 and 0 <= no_write <= 2
-    pre: B.get("raw") is None or raw in B["raw"]
+    pre: 0 <= ow <= 2 and 0 <= raw < len(RAW) and 0 <= a < A_SEL and 0 <= shape < SHAPES and 0 <= n < N_SEL and 0 <= nm < NM_SEL
+    pre: _ok("ow", ow) and _ok("raw", raw) and _ok("a", a) and _ok("shape", shape) and _ok("n", n) and _ok("nm", nm)
     post: _ == True
     """
-    assume(not (n_kind == 2 and n_ro) and not (a_kind == 2 and a_ro))
-    md0 = _old_md(has_ctime, ctime, has_tahoe, has_lcr, lcr, lmo, u_old)
-    packed, model = _prestate(a_exists, a_kind, a_ro, md0)
-    before = [(n, c, _cp(md)) for (n, c, md) in packed.entries]
+    assume(a != 0 or shape == 0)
+    packed, model = _prestate(a, _shape_md(shape, ctime, lcr, lmo, u_old))
+    before = _snap(packed)
     node = _Codec()
+    (n_kind, n_ro) = _n_kind_ro(n)
     child = _mkchild(n_kind, b"new", n_ro)
-    newmd = _new_md(has_new, new_tahoe, nt, no_write, u_new)
+    newmd = _sel_new_md(nm, nt, u_new)
     ron = _RONode()
     _Clock.now = now
     if use_set_node:
-        a = D.Adder(node, overwrite=OW[ow], create_readonly_node=ron)
-        a.set_node(RAW[raw], child, newmd)
+        ad = D.Adder(node, overwrite=_pick(OW, ow), create_readonly_node=ron)
+        ad.set_node(_pick(RAW, raw), child, newmd)
     else:
-        a = D.Adder(node, {RAW[raw]: (child, newmd)}, overwrite=OW[ow], create_readonly_node=ron)
-    want_exc = _model_add(model, NFC[raw], n_kind, b"new", n_ro, _cp(newmd) if newmd is not None else None, ow, now)
+        ad = D.Adder(node, {_pick(RAW, raw): (child, newmd)}, overwrite=_pick(OW, ow), create_readonly_node=ron)
+    want_exc = _model_add(model, _pick(NFC, raw), n_kind, b"new", n_ro, _cp(newmd) if newmd is not None else None, ow, now)
     try:
-        out = a.modify(packed, None, True)
+        out = ad.modify(packed, None, True)
     except ExistingChildError:
         if want_exc != "exists":
             return "ExistingChildError although the overwrite mode allows the add"
-        if [(n, c, md) for (n, c, md) in packed.entries] != before:
+        if not _entries_eq(packed, before):
             return "contents changed by a refused add"
         return True
     if want_exc is not None:
@@ -374,33 +457,32 @@ def h_adder(ow: int, raw: int, a_exists: bool, a_kind: int, a_ro: bool, has_ctim
     return _check_map(out, model)
 
 
-def h_adder_two(ow: int, raw1: int, raw2: int, a_exists: bool, a_kind: int, has_lcr: bool, lcr: int,
+def h_adder_two(ow: int, raw1: int, raw2: int, a: int, has_lcr: bool, lcr: int,
                 k1: int, k2: int, has_new1: bool, has_new2: bool, u1: int, u2: int, now: int) -> bool:
     """
     pre: 0 <= ow <= 2 and 0 <= raw1 < len(RAW) and 0 <= raw2 < len(RAW) and raw1 != raw2
-    pre: 0 <= a_kind <= 2 and 0 <= k1 <= 1 and 0 <= k2 <= 1
-    pre: B.get("raw") is None or (raw1 in B["raw"] and raw2 in B["raw"])
+    pre: 0 <= a <= 3 and 0 <= k1 <= 1 and 0 <= k2 <= 1
+    pre: _ok("ow", ow) and _ok("raw", raw1) and _ok("raw", raw2) and _ok("a", a) and _ok("k", k1) and _ok("k", k2)
     post: _ == True
     """
-    md0 = _old_md(False, 0, True, has_lcr, lcr, 5, 6)
-    packed, model = _prestate(a_exists, a_kind, False, md0)
-    before = [(n, c, _cp(md)) for (n, c, md) in packed.entries]
+    packed, model = _prestate(a, _old_md(False, 0, True, has_lcr, lcr, 5, 6))
+    before = _snap(packed)
     node = _Codec()
     c1, c2 = _mkchild(k1, b"n1"), _mkchild(k2, b"n2")
     m1 = {"user2": u1} if has_new1 else None
     m2 = {"user2": u2} if has_new2 else None
     _Clock.now = now
     # entries is a plain dict: adds happen in insertion order
-    a = D.Adder(node, {RAW[raw1]: (c1, m1), RAW[raw2]: (c2, m2)}, overwrite=OW[ow])
-    want_exc = _model_add(model, NFC[raw1], k1, b"n1", False, m1, ow, now, diminish=False)
+    ad = D.Adder(node, {_pick(RAW, raw1): (c1, m1), _pick(RAW, raw2): (c2, m2)}, overwrite=_pick(OW, ow))
+    want_exc = _model_add(model, _pick(NFC, raw1), k1, b"n1", False, m1, ow, now, diminish=False)
     if want_exc is None:
-        want_exc = _model_add(model, NFC[raw2], k2, b"n2", False, m2, ow, now, diminish=False)
+        want_exc = _model_add(model, _pick(NFC, raw2), k2, b"n2", False, m2, ow, now, diminish=False)
     try:
-        out = a.modify(packed, None, True)
+        out = ad.modify(packed, None, True)
     except ExistingChildError:
         if want_exc != "exists":
             return "ExistingChildError although the overwrite mode allows the adds"
-        if [(n, c, md) for (n, c, md) in packed.entries] != before:
+        if not _entries_eq(packed, before):
             return "contents changed by a refused add"
         return True
     if want_exc is not None:
@@ -408,17 +490,17 @@ def h_adder_two(ow: int, raw1: int, raw2: int, a_exists: bool, a_kind: int, has_
     return _check_map(out, model)
 
 
-def h_deleter(raw: int, a_exists: bool, a_kind: int, must_exist: bool, first_time: bool, mbd: bool, mbf: bool) -> bool:
+def h_deleter(raw: int, a: int, must_exist: bool, first_time: bool, mbd: bool, mbf: bool) -> bool:
     """
-    pre: 0 <= raw < len(RAW) and 0 <= a_kind <= 2
+    pre: 0 <= raw < len(RAW) and 0 <= a < A_SEL
+    pre: _ok("raw", raw) and _ok("a", a)
     post: _ == True
     """
-    md0 = _old_md(False, 0, True, True, 3, 4, 5)
-    packed, model = _prestate(a_exists, a_kind, False, md0)
-    before = [(n, c, _cp(md)) for (n, c, md) in packed.entries]
+    packed, model = _prestate(a, _old_md(False, 0, True, True, 3, 4, 5))
+    before = _snap(packed)
     node = _Codec()
-    dl = D.Deleter(node, RAW[raw], must_exist=must_exist, must_be_directory=mbd, must_be_file=mbf)
-    name = NFC[raw]
+    dl = D.Deleter(node, _pick(RAW, raw), must_exist=must_exist, must_be_directory=mbd, must_be_file=mbf)
+    name = _pick(NFC, raw)
     present = name in model
     try:
         out = dl.modify(packed, None, first_time)
@@ -427,14 +509,14 @@ def h_deleter(raw: int, a_exists: bool, a_kind: int, must_exist: bool, first_tim
             return "NoSuchChildError for a name that is present"
         if not (must_exist and first_time):
             return "NoSuchChildError although must_exist is off (or this is a retry)"
-        return True if [(n, c, md) for (n, c, md) in packed.entries] == before else "contents changed by failed delete"
+        return True if _entries_eq(packed, before) else "contents changed by failed delete"
     except ChildOfWrongTypeError:
         if not present:
             return "ChildOfWrongTypeError for a missing name"
         k = model[name][0]
         if not ((mbd and k == 0) or (mbf and k == 1)):
             return "ChildOfWrongTypeError although the child has an acceptable type"
-        return True if [(n, c, md) for (n, c, md) in packed.entries] == before else "contents changed by failed delete"
+        return True if _entries_eq(packed, before) else "contents changed by failed delete"
     if not present:
         if must_exist and first_time:
             return "missing child with must_exist did not raise"
@@ -451,29 +533,28 @@ def h_deleter(raw: int, a_exists: bool, a_kind: int, must_exist: bool, first_tim
     return _check_map(out, model)
 
 
-def h_mdsetter(raw: int, a_exists: bool, a_kind: int, a_ro: bool, has_ctime: bool, ctime: int, has_tahoe: bool, has_lcr: bool,
-               lcr: int, lmo: int, u_old: int, new_tahoe: bool, nt: int, no_write: int, u_new: int, now: int,
-               with_ron: bool) -> bool:
+def h_mdsetter(raw: int, a: int, shape: int, nm: int, with_ron: bool,
+               ctime: int, lcr: int, lmo: int, u_old: int, nt: int, u_new: int, now: int) -> bool:
     """
-    pre: 0 <= raw < len(RAW) and 0 <= a_kind <= 2 and 0 <= no_write <= 2
+    pre: 0 <= raw < len(RAW) and 0 <= a < A_SEL and 0 <= shape < SHAPES and 1 <= nm < NM_SEL
+    pre: _ok("raw", raw) and _ok("a", a) and _ok("shape", shape) and _ok("nm", nm)
     post: _ == True
     """
-    assume(not (a_kind == 2 and a_ro))
-    md0 = _old_md(has_ctime, ctime, has_tahoe, has_lcr, lcr, lmo, u_old)
-    packed, model = _prestate(a_exists, a_kind, a_ro, md0)
-    before = [(n, c, _cp(md)) for (n, c, md) in packed.entries]
+    assume(a != 0 or shape == 0)
+    packed, model = _prestate(a, _shape_md(shape, ctime, lcr, lmo, u_old))
+    before = _snap(packed)
     node = _Codec()
-    newmd = _new_md(True, new_tahoe, nt, no_write, u_new)
+    newmd = _sel_new_md(nm, nt, u_new)
     ron = _RONode() if with_ron else None
     _Clock.now = now
-    ms = D.MetadataSetter(node, RAW[raw], newmd, create_readonly_node=ron)
-    name = NFC[raw]
+    ms = D.MetadataSetter(node, _pick(RAW, raw), newmd, create_readonly_node=ron)
+    name = _pick(NFC, raw)
     try:
         out = ms.modify(packed, None, True)
     except NoSuchChildError:
         if name in model:
             return "NoSuchChildError for a name that is present"
-        return True if [(n, c, md) for (n, c, md) in packed.entries] == before else "contents changed by failed set-metadata"
+        return True if _entries_eq(packed, before) else "contents changed by failed set-metadata"
     if name not in model:
         return "set-metadata on a missing name did not raise"
     (k, tag, ro, omd) = model[name]
@@ -508,9 +589,7 @@ class _FakeMutableFile(object):
         return defer.succeed(self.contents)
 
     def modify(self, modifier):
-        self.modify_calls += 1
-        if self.readonly:
-            raise hlib.HarnessError("modify() on a read-only backing file")
+        self.modify_calls += 1      # (a read-only backing file still applies the change: worst case for the oracle)
         if self.fail_modify:
             return defer.fail(Failure(UncoordinatedWriteError()))
         try:
@@ -534,7 +613,7 @@ class _NM(object):
         if rw_uri is not None or not ro_uri.startswith(b"ro:"):
             raise hlib.HarnessError("unexpected create_from_cap(%r, %r)" % (rw_uri, ro_uri))
         tag = ro_uri[3:]
-        return _KINDS[self.kinds.get(tag, 0)](tag, True)
+        return _pick(_KINDS, self.kinds.get(tag, 0))(tag, True)
 
 
 class _TDir(_Codec, D.DirectoryNode):
@@ -562,43 +641,39 @@ def _outcome(d):
     return out[0]
 
 
-def _entries_eq(packed, before):
-    return [(n, c, md) for (n, c, md) in packed.entries] == before
-
-
-def _snap(packed):
-    return [(n, c, _cp(md)) for (n, c, md) in packed.entries]
-
-
-def h_move(ow: int, src_raw: int, dst_raw: int, dst_none: bool, same_dir: bool, alias: bool, src_exists: bool, src_kind: int,
-           t_exists: bool, t_kind: int, has_lcr: bool, lcr: int, s_lcr: int, s_user: int, src_rdonly: bool, dst_rdonly: bool,
-           fail_add: bool, now: int) -> bool:
+def h_move(ow: int, src_raw: int, dst_raw: int, dst_none: bool, where: int, sa: int, ta: int, has_lcr: bool,
+           src_rdonly: bool, dst_rdonly: bool, fail_add: bool, lcr: int, s_lcr: int, s_user: int, now: int) -> bool:
     """
-    pre: 0 <= ow <= 2 and 0 <= src_kind <= 1 and 0 <= t_kind <= 2
+    pre: 0 <= ow <= 2 and 0 <= where <= 2 and 0 <= sa <= 2 and 0 <= ta <= 3
     pre: src_raw in (1, 2, 4) and dst_raw in (0, 1, 3, 4)
+    pre: _ok("ow", ow) and _ok("src_raw", src_raw) and _ok("dst_raw", dst_raw) and _ok("where", where) and _ok("sa", sa) and _ok("ta", ta)
+    pre: _ok("dst_none", dst_none) and _ok("src_rdonly", src_rdonly) and _ok("dst_rdonly", dst_rdonly) and _ok("fail_add", fail_add)
     post: _ == True
     """
-    # source directory S: entry under T (symbolic presence/kind) + bystander;  target directory P: the same shape.
+    # where: 0 = another directory P, 1 = the same node object, 2 = a second node object for the same directory
+    # source directory S: entry under T (sa: absent/file/dir) + bystander;  target directory P: entry under T (ta) + bystander.
+    same_dir = where != 0
     s_md = {"tahoe": {"linkcrtime": s_lcr, "linkmotime": 21}, "user": s_user}
     t_md = _old_md(False, 0, True, has_lcr, lcr, 31, 32)
-    s_packed, s_model = _prestate(src_exists, src_kind, False, s_md)
+    s_packed, s_model = _prestate(sa, s_md)
     nm = _NM()
     S = _TDir(b"S", s_packed, readonly=src_rdonly, nm=nm)
     if same_dir:
-        # the same directory, either the same object or a second node object for the same cap
-        P = _TDir(b"S", s_packed, readonly=src_rdonly, nm=nm) if alias else S
-        if alias:
+        assume(not fail_add and not dst_rdonly and ta == 0 and not has_lcr)
+        if where == 2:
+            P = _TDir(b"S", s_packed, readonly=src_rdonly, nm=nm)
             P._node = S._node
+        else:
+            P = S
         p_model = s_model
-        assume(not fail_add)
     else:
-        p_packed, p_model = _prestate(t_exists, t_kind, False, t_md)
+        p_packed, p_model = _prestate(ta, t_md)
         P = _TDir(b"P", p_packed, readonly=dst_rdonly, fail_modify=fail_add, nm=nm)
     s_before, p_before = _snap(S._node.contents), _snap(P._node.contents)
     _Clock.now = now
-    src_name = NFC[src_raw]
-    dst_name = src_name if dst_none else NFC[dst_raw]
-    res = _outcome(S.move_child_to(RAW[src_raw], P, None if dst_none else RAW[dst_raw], overwrite=OW[ow]))
+    src_name = _pick(NFC, src_raw)
+    dst_name = src_name if dst_none else _pick(NFC, dst_raw)
+    res = _outcome(S.move_child_to(_pick(RAW, src_raw), P, None if dst_none else _pick(RAW, dst_raw), overwrite=_pick(OW, ow)))
 
     def unchanged():
         return _entries_eq(S._node.contents, s_before) and _entries_eq(P._node.contents, p_before)
@@ -643,39 +718,46 @@ def h_move(ow: int, src_raw: int, dst_raw: int, dst_none: bool, same_dir: bool, 
     return True
 
 
-def h_dir_ops(op: int, raw: int, ow: int, a_exists: bool, a_kind: int, a_ro: bool, has_lcr: bool, lcr: int, has_ctime: bool,
-              ctime: int, n_kind: int, has_new: bool, no_write: int, u_new: int, rdonly: bool, must_exist: bool, mbd: bool,
-              mbf: bool, now: int) -> bool:
+def h_dir_ops(op: int, raw: int, ow: int, a: int, shape: int, n: int, nm: int, rdonly: bool, must_exist: bool, mbd: bool,
+              mbf: bool, ctime: int, lcr: int, u_new: int, now: int) -> bool:
     """
-    pre: 0 <= op <= 3 and 0 <= raw < len(RAW) and 0 <= ow <= 2 and 0 <= a_kind <= 2 and 0 <= n_kind <= 2 and 0 <= no_write <= 2
-    pre: B.get("raw") is None or raw in B["raw"]
+    pre: 0 <= op <= 3 and 0 <= raw < len(RAW) and 0 <= ow <= 2 and 0 <= a < A_SEL and 0 <= shape < SHAPES and 0 <= n <= 2 and 0 <= nm < NM_SEL
+    pre: _ok("op", op) and _ok("raw", raw) and _ok("ow", ow) and _ok("a", a) and _ok("shape", shape) and _ok("n", n) and _ok("nm", nm)
+    pre: _ok("rdonly", rdonly)
     post: _ == True
     """
-    assume(not (a_kind == 2 and a_ro))
-    md0 = _old_md(has_ctime, ctime, has_lcr, has_lcr, lcr, 41, 42)
-    packed, model = _prestate(a_exists, a_kind, a_ro, md0)
-    nm = _NM()
-    nm.kinds = {b"old": a_kind, b"new": n_kind}
-    Dn = _TDir(b"D", packed, readonly=rdonly, nm=nm)
+    assume(a != 0 or shape == 0)
+    if op <= 1:
+        assume(must_exist and not mbd and not mbf)
+    elif op == 2:
+        assume(ow == 0 and n == 0 and nm == 0)
+    else:
+        assume(ow == 0 and n == 0 and nm != 0 and must_exist and not mbd and not mbf)
+    packed, model = _prestate(a, _shape_md(shape, ctime, lcr, 41, 42))
+    nmk = _NM()
+    (n_kind, _nro) = _n_kind_ro(n)
+    nmk.kinds = {b"old": (_a_kind_ro(a)[0] if a != 0 else 0), b"new": n_kind, b"by": 0}
+    Dn = _TDir(b"D", packed, readonly=rdonly, nm=nmk)
     before = _snap(packed)
     _Clock.now = now
-    name = NFC[raw]
+    name = _pick(NFC, raw)
+    rawname = _pick(RAW, raw)
     child = _mkchild(n_kind, b"new")
-    newmd = _new_md(has_new, False, 0, no_write, u_new)
+    newmd = _sel_new_md(nm, 0, u_new)
     want = None      # None = success; else the exception class
+    removed = None
     if op == 0:
-        res = _outcome(Dn.set_node(RAW[raw], child, newmd, overwrite=OW[ow]))
+        res = _outcome(Dn.set_node(rawname, child, newmd, overwrite=_pick(OW, ow)))
         if not rdonly:
             if _model_add(model, name, n_kind, b"new", False, _cp(newmd) if newmd is not None else None, ow, now) == "exists":
                 want = ExistingChildError
     elif op == 1:
-        res = _outcome(Dn.set_nodes({RAW[raw]: (child, newmd)}, overwrite=OW[ow]))
+        res = _outcome(Dn.set_nodes({rawname: (child, newmd)}, overwrite=_pick(OW, ow)))
         if not rdonly:
             if _model_add(model, name, n_kind, b"new", False, _cp(newmd) if newmd is not None else None, ow, now) == "exists":
                 want = ExistingChildError
     elif op == 2:
-        res = _outcome(Dn.delete(RAW[raw], must_exist=must_exist, must_be_directory=mbd, must_be_file=mbf))
-        removed = None
+        res = _outcome(Dn.delete(rawname, must_exist=must_exist, must_be_directory=mbd, must_be_file=mbf))
         if not rdonly:
             if name not in model:
                 if must_exist:
@@ -688,8 +770,7 @@ def h_dir_ops(op: int, raw: int, ow: int, a_exists: bool, a_kind: int, a_ro: boo
                     removed = model[name]
                     del model[name]
     else:
-        assume(has_new)
-        res = _outcome(Dn.set_metadata_for(RAW[raw], newmd))
+        res = _outcome(Dn.set_metadata_for(rawname, newmd))
         if not rdonly:
             if name not in model:
                 want = NoSuchChildError
@@ -721,7 +802,118 @@ def h_dir_ops(op: int, raw: int, ow: int, a_exists: bool, a_kind: int, a_ro: boo
     if r is not True:
         return r
     # observation through the read API agrees with the map
-    got = _outcome(Dn.has_child(RAW[raw]))
+    got = _outcome(Dn.has_child(rawname))
     if got != ("ok", name in model):
         return "has_child disagrees with the map"
+    return True
+
+
+# ---------------------------------------------------------------------------------------------------
+# two-operation histories over two directories (the per-operation obligations are the inductive step; this runs
+# real operation pairs so that link-creation time / modification time are followed across updates)
+# ---------------------------------------------------------------------------------------------------
+
+def _model_apply(models, op, raw, dst, ow, nm, now, tag):
+    """apply one operation to the map models {'S': {...}, 'P': {...}}; returns the expected exception class or None"""
+    S, P = models["S"], models["P"]
+    name = _pick(NFC, raw)
+    if op == 0:        # S.set_node(name, new file, metadata)
+        newmd = {"user2": 7} if nm else None
+        if _model_add(S, name, 0, tag, False, newmd, ow, now) == "exists":
+            return ExistingChildError
+        return None
+    if op == 1:        # S.delete(name)
+        if name not in S:
+            return NoSuchChildError
+        del S[name]
+        return None
+    if op == 2:        # S.set_metadata_for(name, {...})
+        if name not in S:
+            return NoSuchChildError
+        (k, t, ro, omd) = S[name]
+        S[name] = (k, t, ro, _model_md(omd, {"user2": 8}, now))
+        return None
+    # move: 3 = S -> P, 4 = within S
+    T_ = P if op == 3 else S
+    dname = _pick(NFC, dst)
+    if op == 4 and dname == name:
+        return None
+    if name not in S:
+        return NoSuchChildError
+    (k, t, ro, md) = S[name]
+    if _model_add(T_, dname, k, t, ro, _cp(md), ow, now) == "exists":
+        return ExistingChildError
+    del S[name]
+    return None
+
+
+def _real_apply(dirs, op, raw, dst, ow, nm, tag):
+    S, P = dirs["S"], dirs["P"]
+    rawname = _pick(RAW, raw)
+    if op == 0:
+        return _outcome(S.set_node(rawname, _File(tag), {"user2": 7} if nm else None, overwrite=_pick(OW, ow)))
+    if op == 1:
+        return _outcome(S.delete(rawname))
+    if op == 2:
+        return _outcome(S.set_metadata_for(rawname, {"user2": 8}))
+    return _outcome(S.move_child_to(rawname, P if op == 3 else S, _pick(RAW, dst), overwrite=_pick(OW, ow)))
+
+
+def _step_table(which):
+    """all parameter tuples (op, raw, dst, ow, nm) a step may take under the bounds; parameters only vary where the operation uses them"""
+    ops = B.get(which, [0, 1, 2, 3, 4])
+    raws = B.get("raws", [1, 2, 4])
+    dsts = B.get("dsts", [0, 2, 4])
+    ows = B.get("ow", [0, 1, 2])
+    nms = B.get("nm", [False, True])
+    out = []
+    for op in ops:
+        for raw in raws:
+            if op == 0:
+                for ow in ows:
+                    for nm in nms:
+                        out.append((0, raw, 0, ow, nm))
+            elif op in (1, 2):
+                out.append((op, raw, 0, 0, False))
+            else:
+                for dst in dsts:
+                    for ow in ows:
+                        out.append((op, raw, dst, ow, False))
+    return out
+
+
+STEP1, STEP2 = _step_table("op1"), _step_table("op2")
+
+
+def h_history2(sa: int, pa: int, i1: int, i2: int, lcr: int, now1: int, now2: int) -> bool:
+    """
+    pre: 0 <= sa <= 2 and 0 <= pa <= 2 and 0 <= i1 < len(STEP1) and 0 <= i2 < len(STEP2)
+    pre: _ok("sa", sa) and _ok("pa", pa)
+    post: _ == True
+    """
+    (op1, raw1, dst1, ow1, nm1) = _pick(STEP1, i1)
+    (op2, raw2, dst2, ow2, nm2) = _pick(STEP2, i2)
+    md = {"tahoe": {"linkcrtime": lcr, "linkmotime": lcr}, "user": 1}
+    s_packed, s_model = _prestate(sa, md)
+    p_packed, p_model = _prestate(pa, md)
+    nmk = _NM()
+    dirs = {"S": _TDir(b"S", s_packed, nm=nmk), "P": _TDir(b"P", p_packed, nm=nmk)}
+    models = {"S": s_model, "P": p_model}
+    steps = ((op1, raw1, dst1, ow1, nm1, now1, b"new1"), (op2, raw2, dst2, ow2, nm2, now2, b"new2"))
+    for (op, raw, dst, ow, nm, now, tag) in steps:
+        _Clock.now = now
+        before = (_snap(dirs["S"]._node.contents), _snap(dirs["P"]._node.contents))
+        want = _model_apply(models, op, raw, dst, ow, nm, now, tag)
+        res = _real_apply(dirs, op, raw, dst, ow, nm, tag)
+        if want is not None:
+            if res[0] != "err" or not res[1].check(want):
+                return "operation %d: expected %s, got %r" % (op, want.__name__, res)
+            if not (_entries_eq(dirs["S"]._node.contents, before[0]) and _entries_eq(dirs["P"]._node.contents, before[1])):
+                return "failed operation %d changed a directory" % op
+        elif res[0] != "ok":
+            return "operation %d failed: %r" % (op, res[1])
+        for key in ("S", "P"):
+            r = _check_map(dirs[key]._node.contents, models[key])
+            if r is not True:
+                return "after operation %d, directory %s: %s" % (op, key, r)
     return True
